@@ -24,6 +24,7 @@ type cfg struct {
 	K     int
 	Late  string // "": none; "root": late Subscribe on the root publisher; "clone": on the first clone
 	CloseLeaf string // path of a leaf that is closed concurrently with the stream (its siblings must not notice)
+	MapOrder  bool   // the publisher's iteration order over its subscriptions is an explorer choice
 	Prop  string
 	Mode  string
 	Bound int
@@ -194,6 +195,8 @@ func SiblingScenarios(prop, tier string) []runner.Sc {
 		scenario(cfg{Prop: prop, Name: "sub,sub", Tree: []hx.Spec{sub(), sub()}, K: 2, CloseLeaf: "0:sub", Mode: "S1"}),
 		scenario(cfg{Prop: prop, Name: "sub,sub,sub", Tree: t3, K: 3, CloseLeaf: "0:sub", Mode: "S2", Bound: 2}),
 		scenario(cfg{Prop: prop, Name: "sub,clone(sub)", Tree: t2c, K: 3, CloseLeaf: "0:sub", Mode: "S2", Bound: 2}),
+		// whichever position the closed leaf has in the publisher's iteration order
+		scenario(cfg{Prop: prop, Name: "sub,sub,sub", Tree: t3, K: 2, CloseLeaf: "1:sub", MapOrder: true, Mode: "S2", Bound: 3}),
 	}
 	if tier == "thorough" {
 		out = append(out,
@@ -210,10 +213,13 @@ func scenario(c cfg) runner.Sc {
 		pfx = strings.ToLower(c.Prop)
 	}
 	name := fmt.Sprintf("%s/%s/K%d/late=%s/close=%s/%s%d", pfx, c.Name, c.K, c.Late, c.CloseLeaf, c.Mode, c.Bound)
+	if c.MapOrder {
+		name += "/maporder"
+	}
 	return runner.Sc{
 		Scenario: explore.Scenario{
 			Name: name, Mode: c.Mode, Bound: c.Bound,
-			Cfg: vs.Config{MaxSteps: 100000},
+			Cfg: vs.Config{MaxSteps: 100000, MapOrder: c.MapOrder},
 			New: func() explore.Instance {
 				in := &inst{c: c}
 				return explore.Instance{Run: in.run, Check: in.check, Outcome: in.outcome}
@@ -247,6 +253,7 @@ func Property() runner.Property {
 				scenario(cfg{Name: "sub,sub", Tree: t1, K: 3, Late: "root", Mode: "S2", Bound: 2}),
 				scenario(cfg{Name: "clone(sub),sub", Tree: t2, K: 3, Late: "clone", Mode: "S2", Bound: 2}),
 				scenario(cfg{Name: "clone(sub,sub),sub", Tree: t4, K: 4, Mode: "S2", Bound: 2}),
+				scenario(cfg{Name: "sub,sub,sub", Tree: []hx.Spec{sub(), sub(), sub()}, K: 2, MapOrder: true, Mode: "S2", Bound: 3}),
 			}
 			out = append(out, SiblingScenarios("C05", tier)...)
 			out = append(out, c03.C05Controller(tier)...)
